@@ -83,13 +83,18 @@ def run_property(prop: str, repo_root: str, tier: str, only_key: str | None = No
         return 2
 
     ff = rep.floor_failures()
+    for e in rep.errors:
+        ff.append(("-", e, 0, 1))
     has_unlisted = any((not ob.ok) and (ob.rule, ob.key) not in {(k["rule"], k["key"]) for k in load_known() if k["property"] == prop} for ob in rep.obligations)
     if ff and not has_unlisted:
         for rule, anchor, matched, minimum in ff:
-            print(f"ANALYSIS-ERROR property={prop} rule {rule}: anchor {anchor} contributed {matched} instance(s), floor is {minimum} (rule would pass vacuously)")
+            if rule == "-":
+                print(f"ANALYSIS-ERROR property={prop} {anchor}")
+            else:
+                print(f"ANALYSIS-ERROR property={prop} rule {rule}: anchor {anchor} contributed {matched} instance(s), floor is {minimum} (rule would pass vacuously)")
         return 2
     for rule, anchor, matched, minimum in ff:
-        print(f"NOTE rule {rule}: anchor {anchor} contributed {matched} instance(s), floor is {minimum}")
+        print(f"NOTE rule {rule}: {anchor}" + ("" if rule == "-" else f" contributed {matched} instance(s), floor is {minimum}"))
 
     known = [k for k in load_known() if k["property"] == prop]
     known_keys = {(k["rule"], k["key"]): k for k in known}
